@@ -44,7 +44,7 @@ def _oracle_terms(S, method, ws, H, W, li, ri, lmk, rmk, ds, grids=None, lcodes=
 
 
 def cost_volume(method='sad', ws=3, H=3, W=6, dmin=-1, dmax=1, masks=True, grids=False, col0=0, bands=None, band=None,
-                wta=True, cap=60, block=(), known_config=False, lcodes=(0, 1), rcodes=(0, 1)):
+                wta=True, cap=60, block=(), known_config=False, lcodes=(0, 1), rcodes=(0, 1), rbands=None):
     """C02 (values + NaN pattern + attributes), C04 family 1 (flag coherence, with wta), C09 (grids: inside == scalar run, NaN outside)"""
     import xarray as xr
     from vf import symnp as S, instr
@@ -62,7 +62,7 @@ def cost_volume(method='sad', ws=3, H=3, W=6, dmin=-1, dmax=1, masks=True, grids
     def h():
         shapes = {}
         L, li, lmk = mc.make_image(xr, S, EX, 'l', H, W, col0=col0, mask='sym' if masks else None, bands=bands, shapes=shapes, vmax=63 if method == 'ssd' else 255, codes=tuple(lcodes))
-        R, ri, rmk = mc.make_image(xr, S, EX, 'r', H, W, col0=col0, mask='sym' if masks else None, bands=bands, shapes=shapes, vmax=63 if method == 'ssd' else 255, codes=tuple(rcodes))
+        R, ri, rmk = mc.make_image(xr, S, EX, 'r', H, W, col0=col0, mask='sym' if masks else None, bands=rbands or bands, shapes=shapes, vmax=63 if method == 'ssd' else 255, codes=tuple(rcodes))
         gr = None
         if grids:
             gmin = S.fresh_array('gmin', (H, W), 'xi'); gmax = S.fresh_array('gmax', (H, W), 'xi')
@@ -78,7 +78,7 @@ def cost_volume(method='sad', ws=3, H=3, W=6, dmin=-1, dmax=1, masks=True, grids
             mc.add_disparity(xr, S, L, H, W, dmin, dmax)
         col.shapes = shapes
         ex = {'method': method, 'ws': ws, 'H': H, 'W': W, 'dmin': dmin, 'dmax': dmax, 'masks': masks, 'grids': grids, 'col0': col0, 'bands': bands, 'band': band,
-              'lcodes': list(lcodes), 'rcodes': list(rcodes)}
+              'lcodes': list(lcodes), 'rcodes': list(rcodes), 'rbands': rbands}
         li0 = li.copy(); ri0 = ri.copy()
         try:
             out = mc.run_chain(S, L, R, method, ws, band=band, upto='wta' if wta else 'masked')
@@ -92,7 +92,7 @@ def cost_volume(method='sad', ws=3, H=3, W=6, dmin=-1, dmax=1, masks=True, grids
         cv = out['cv']
         o = cv["cost_volume"].data
         lsel = li if not bands else S.SymArray(li._a[list(bands).index(band)], 'x4')
-        rsel = ri if not bands else S.SymArray(ri._a[list(bands).index(band)], 'x4')
+        rsel = ri if not bands else S.SymArray(ri._a[list(rbands or bands).index(band)], 'x4')
         comp, val, geom = _oracle_terms(S, method, ws, H, W, lsel, rsel, lmk, rmk, ds, gr, lcodes, rcodes)
         props = []
         props.append(("cost-volume-shape-and-disparities", z3.BoolVal(tuple(o.shape) == (H, W, len(ds)) and list(cv.coords["disp"].data) == ds
@@ -280,7 +280,7 @@ def _valid_abstract(claim, ms):
         return False
 
 
-def zncc_volume(ws=3, H=3, W=4, dmin=-1, dmax=0, vmax=15, cap=300, block=(), value=False):
+def zncc_volume(ws=3, H=3, W=4, dmin=-1, dmax=0, vmax=15, cap=300, block=(), npins=3, seed=0):
     """C02 for ZNCC, structural part only: shape, disparities, type of measure / maximal cost, NaN exactly where a window leaves an
     image, a finite number elsewhere.  Exact domain; sqrt is an uninterpreted function with s >= 0, s*s == x."""
     import xarray as xr
@@ -317,6 +317,7 @@ def zncc_volume(ws=3, H=3, W=4, dmin=-1, dmax=0, vmax=15, cap=300, block=(), val
         lv = lambda r, c: li._a[r, c].t.val
         rv = lambda r, c: ri._a[r, c].t.val
         ncomp = 0
+        value_claims = []
         if tuple(o.shape) == (H, W, len(ds)):
             for r in range(H):
                 for c in range(W):
@@ -335,35 +336,123 @@ def zncc_volume(ws=3, H=3, W=4, dmin=-1, dmax=0, vmax=15, cap=300, block=(), val
                         # variables: z3 does not decide it within the caps (tried: uninterpreted sqrt with s*s == x, lemma-matched
                         # arguments, Cauchy-Schwarz lemmas) -> outside the claim.  Decided here: finite wherever computable.
                         props.append(("zncc-is-a-finite-number-where-computable[%d,%d,%d]" % (r, c, d), e.tag == 0))
-                        if value:
-                            m2l = sll / n; m2r = srr / n
-                            varl = m2l - (sl / n) * (sl / n); varr = m2r - (sr / n) * (sr / n); cov = slr / n - (sl / n) * (sr / n)
-                            varl_c = z3.If(varl < EPS * m2l, 0, varl); varr_c = z3.If(varr < EPS * m2r, 0, varr)
-                            atoms = _sqrt_atoms(e.val)
-                            aL = aR = None
-                            for a_ in atoms:
-                                if aL is None and _valid(EX, a_.arg(0) == varl_c):
-                                    aL = a_
-                                elif aR is None and _valid(EX, a_.arg(0) == varr_c):
-                                    aR = a_
-                            if aL is None:
-                                aL, _ = S.sqrt_uf(varl_c)
-                            if aR is None:
-                                aR, _ = S.sqrt_uf(varr_c)
-                            hyp = z3.And(varl >= 0, varr >= 0, aL >= 0, aL * aL == varl_c, aR >= 0, aR * aR == varr_c)
-                            claim = z3.Implies(hyp, z3.If(z3.Or(varl_c == 0, varr_c == 0), e.val == 0, e.val * aL * aR == cov))
-                            ok = _valid_abstract(claim, cap * 1000)
-                            props.append(("zncc-is-the-normalised-cross-correlation-0-on-zero-variance[%d,%d,%d]" % (r, c, d), z3.BoolVal(True) if ok else claim))
+                        # value at pinned image pairs (below): the definition with fresh square-root variables (s >= 0, s*s == var)
+                        m2l = sll / n; m2r = srr / n
+                        varl = m2l - (sl / n) * (sl / n); varr = m2r - (sr / n) * (sr / n); cov = slr / n - (sl / n) * (sr / n)
+                        varl_c = z3.If(varl < EPS * m2l, 0, varl); varr_c = z3.If(varr < EPS * m2r, 0, varr)
+                        qL = z3.Real('qL_%d_%d_%d' % (r, c, k)); qR = z3.Real('qR_%d_%d_%d' % (r, c, k))
+                        value_claims.append(z3.Implies(z3.And(qL >= 0, qL * qL == varl_c, qR >= 0, qR * qR == varr_c),
+                                                       z3.And(e.tag == 0, z3.If(z3.Or(varl_c == 0, varr_c == 0), e.val == 0, e.val * qL * qR == cov))))
         # vacuity witness: the path condition (with the square-root axioms) is satisfied by a pinned concrete image pair
-        rng = np.random.RandomState(3)
-        pin = z3.And(*[e_.t.val == int(rng.randint(0, vmax + 1)) for e_ in list(li._a.flat) + list(ri._a.flat)])
-        col.check_path(props, label='p%d' % len(EX.trace), extra=ex, witnesses=[("a-computable-cost-exists-on-a-pinned-image-pair", z3.And(pin, z3.BoolVal(ncomp > 0)))], group=False)
+        rng = np.random.RandomState(3 + seed)
+        pins = []
+        for k_ in range(npins):
+            vals = [int(rng.randint(0, vmax + 1)) for _ in range(2 * H * W)]
+            if k_ == 1:            # a pair with constant (zero-variance) windows in the left image
+                vals[:H * W] = [7] * (H * W)
+            pins.append(z3.And(*[e_.t.val == v_ for e_, v_ in zip(list(li._a.flat) + list(ri._a.flat), vals)]))
+        # the VALUE for arbitrary images is outside the claim (see above); it is decided at `npins` pinned image pairs, where the query
+        # is ground: zncc * sqrt(var L) * sqrt(var R) == cov, 0 on zero variance
+        for k_, pin in enumerate(pins):
+            props.append(("zncc-value-is-the-normalised-cross-correlation-at-pinned-image-pair-%d" % k_, z3.Implies(pin, z3.And(*value_claims)) if value_claims else z3.BoolVal(True)))
+        col.check_path(props, label='p%d' % len(EX.trace), extra=ex, witnesses=[("a-computable-cost-exists-on-a-pinned-image-pair", z3.And(pins[0], z3.BoolVal(ncomp > 0)))], group=False)
         info['fn'] = instr.fn_hash(ZN.Zncc.compute_cost_volume, ZN.apply_divide_standard, IT.compute_mean_raster, IT.compute_std_raster, MC.AbstractMatchingCost.point_interval)
     res, stats = explore(h, max_paths=64)
     return col.result(stats, functions=info.get('fn', {}),
                       bounds={'measure': 'zncc', 'window': ws, 'image': [H, W], 'interval': [dmin, dmax], 'radiometry': 'integers in [0, %d]' % vmax, 'masks': 'none', 'subpix': 1},
                       stubs=['np.sqrt = uninterpreted function with sqrt(x) >= 0 and sqrt(x)^2 == x'],
                       assumptions=['C02 (zncc): reals-for-floats (float rounding of sums, division and square root outside the claim)'])
+
+
+def zncc_bands(ws=3, H=3, W=4, dmin=-1, dmax=0, vmax=15, cap=120, block=(), subpix=1):
+    """ZNCC band selection (relational): the cost volume of a two-band pair whose band ORDER differs between the two images, computed
+    on band 'g', must equal the cost volume of the single-band pair made of the two 'g' layers (same symbolic samples)"""
+    import xarray as xr
+    from vf import symnp as S, instr
+    from vf.explore import EX, explore
+    from vf.hutil import Collector
+    from vf.harness import mc
+    import pandora.matching_cost.zncc as ZN, pandora.img_tools as IT
+    mc.install_stubs(S)
+    col = Collector(cap_s=cap, block=list(block))
+    info = {}
+    S.MODE['exact'] = True; S.REALS['div'] = True
+
+    def h():
+        shapes = {}
+        L, li, _ = mc.make_image(xr, S, EX, 'l', H, W, bands=['r', 'g'], shapes=shapes, vmax=vmax)
+        R, ri, _ = mc.make_image(xr, S, EX, 'r', H, W, bands=['g', 'r'], shapes=shapes, vmax=vmax)
+        mc.add_disparity(xr, S, L, H, W, dmin, dmax)
+        col.shapes = shapes
+        ex = {'zncc_bands': True, 'ws': ws, 'H': H, 'W': W, 'dmin': dmin, 'dmax': dmax, 'subpix': subpix}
+
+        def mono(arr2d, disp):
+            d = xr.Dataset({"im": (["row", "col"], S.SymArray(arr2d.copy(), 'x4'))}, coords={"row": np.arange(H), "col": np.arange(W)})
+            d.attrs = {"valid_pixels": 0, "no_data_mask": 1, "crs": None, "transform": None, "no_data_img": -9999}
+            if disp:
+                mc.add_disparity(xr, S, d, H, W, dmin, dmax)
+            return d
+        Lm = mono(li._a[1], True); Rm = mono(ri._a[0], False)
+        try:
+            o2 = mc.run_chain(S, L, R, 'zncc', ws, subpix=subpix, band='g', upto='masked')['cv']["cost_volume"].data
+            o1 = mc.run_chain(S, Lm, Rm, 'zncc', ws, subpix=subpix, upto='masked')['cv']["cost_volume"].data
+        except S.Unsupported:
+            raise
+        except Exception as e:      # noqa
+            col.path_exception(e, label='p%d' % len(EX.trace), extra=ex); return
+        props = [("same-shape", z3.BoolVal(tuple(o1.shape) == tuple(o2.shape)))]
+        if tuple(o1.shape) == tuple(o2.shape):
+            for idx in np.ndindex(*o1.shape):
+                a_, b_ = o1._a[idx], o2._a[idx]
+                ta, tb = S.xlift(a_), S.xlift(b_)
+                if ta.val.eq(tb.val) and ta.tag.eq(tb.tag):
+                    props.append(("multiband-cost-on-the-selected-band-equals-the-single-band-cost%s" % (list(idx),), z3.BoolVal(True)))
+                else:
+                    props.append(("multiband-cost-on-the-selected-band-equals-the-single-band-cost%s" % (list(idx),), S.term_eq(a_, b_, 'x4')))
+        rng = np.random.RandomState(3)
+        pins = [z3.And(*[e_.t.val == int(rng.randint(0, vmax + 1)) for e_ in list(li._a.flat) + list(ri._a.flat)]) for _ in range(3)]
+        col.check_path(props, label='p%d' % len(EX.trace), extra=ex, witnesses=[("pinned-images-satisfy-the-path-condition", pins[0])], group=False, pins=pins)
+        info['fn'] = instr.fn_hash(ZN.Zncc.compute_cost_volume, IT.compute_mean_raster, IT.compute_std_raster, IT.shift_right_img)
+    res, stats = explore(h, max_paths=16)
+    return col.result(stats, functions=info.get('fn', {}), bounds={'measure': 'zncc', 'window': ws, 'image': [2, H, W], 'interval': [dmin, dmax], 'subpix': subpix,
+                                                                   'bands': "left ['r','g'], right ['g','r'], band 'g'"},
+                      stubs=['np.sqrt = uninterpreted function with sqrt(x) >= 0 and sqrt(x)^2 == x'])
+
+
+def replay_zncc_bands(cex):
+    import xarray as xr
+    from pandora import matching_cost
+    from pandora.criteria import validity_mask
+    x = cex['extra']; inp = cex['inputs']
+    H, W, ws, dmin, dmax, subpix = x['H'], x['W'], x['ws'], x['dmin'], x['dmax'], x.get('subpix', 1)
+    li = np.array(inp['l'], np.float32).reshape(2, H, W); ri = np.array(inp['r'], np.float32).reshape(2, H, W)
+
+    def mk(im, bands, disp):
+        if bands:
+            d = xr.Dataset({"im": (["band_im", "row", "col"], im.copy())}, coords={"band_im": bands, "row": np.arange(H), "col": np.arange(W)})
+        else:
+            d = xr.Dataset({"im": (["row", "col"], im.copy())}, coords={"row": np.arange(H), "col": np.arange(W)})
+        d.attrs = {"valid_pixels": 0, "no_data_mask": 1, "crs": None, "transform": None, "no_data_img": -9999}
+        if disp:
+            d.coords["band_disp"] = ["min", "max"]
+            d["disparity"] = xr.DataArray(np.array([np.full((H, W), dmin), np.full((H, W), dmax)]), dims=["band_disp", "row", "col"]); d.attrs["disparity_source"] = [dmin, dmax]
+        return d
+
+    def run(L, R, band):
+        m = matching_cost.AbstractMatchingCost(**{"matching_cost_method": "zncc", "window_size": ws, "subpix": subpix, "band": band})
+        a = L["disparity"].sel(band_disp="min").data; b = L["disparity"].sel(band_disp="max").data
+        cv = m.allocate_cost_volume(L, (a, b), None); cv = validity_mask(L, R, cv); cv = m.compute_cost_volume(L, R, cv); m.cv_masked(L, R, cv, a, b)
+        return cv["cost_volume"].data
+    try:
+        o2 = run(mk(li, ['r', 'g'], True), mk(ri, ['g', 'r'], False), 'g')
+        o1 = run(mk(li[1], None, True), mk(ri[0], None, False), None)
+    except Exception as e:      # noqa
+        return {'violates': True, 'detail': 'zncc chain raised %r' % (e,)}
+    if o1.shape != o2.shape or not np.allclose(o1, o2, atol=1e-5, equal_nan=True):
+        w = np.argwhere(~np.isclose(o1, o2, atol=1e-5, equal_nan=True))
+        return {'violates': True, 'detail': 'zncc on band g of the two-band pair differs from zncc of the single-band pair at %s: %r vs %r (left %s, right %s)' % (
+            w[0].tolist() if len(w) else '?', float(o2[tuple(w[0])]) if len(w) else None, float(o1[tuple(w[0])]) if len(w) else None, li.tolist(), ri.tolist())}
+    return {'violates': False, 'detail': 'multiband and single-band zncc agree'}
 
 
 def replay_zncc(cex):
@@ -499,6 +588,8 @@ def replay(cex):
         return replay_subpix(cex)
     if cex['extra'].get('zncc_volume'):
         return replay_zncc(cex)
+    if cex['extra'].get('zncc_bands'):
+        return replay_zncc_bands(cex)
     x = cex['extra']; inp = cex['inputs']
     H, W, ws, dmin, dmax, method = x['H'], x['W'], x['ws'], x['dmin'], x['dmax'], x['method']
     bands = x.get('bands'); band = x.get('band'); col0 = x.get('col0', 0)
@@ -506,13 +597,15 @@ def replay(cex):
 
     lcodes = tuple(x.get('lcodes', (0, 1))); rcodes = tuple(x.get('rcodes', (0, 1)))
 
+    rbands = x.get('rbands') or bands
+
     def mk(name):
         codes = lcodes if name == 'l' else rcodes
         im = np.array(inp[name], np.float32).reshape(shp)
         dims = ["row", "col"] if not bands else ["band_im", "row", "col"]
         coords = {"row": np.arange(H), "col": np.arange(col0, col0 + W)}
         if bands:
-            coords["band_im"] = list(bands)
+            coords["band_im"] = list(bands if name == 'l' else rbands)
         ds_ = xr.Dataset({"im": (dims, im.copy())}, coords=coords)
         ds_.attrs = {"valid_pixels": codes[0], "no_data_mask": codes[1], "crs": None, "transform": None, "no_data_img": -9999}
         mk_ = np.full((H, W), codes[0], np.int16)
@@ -538,7 +631,7 @@ def replay(cex):
         big = max(abs(dmin), abs(dmax)) >= W - 2 * (ws // 2) - (0 if method in ('sad', 'ssd') else 0)
         return {'violates': True, 'known': 'KF-C02-interval-beyond-image-width' if (isinstance(e, ValueError) and big) else None,
                 'detail': 'matching cost chain raised %r (image %dx%d, interval [%d,%d], window %d, %s)' % (e, H, W, dmin, dmax, ws, method)}
-    lsel = li if not bands else li[list(bands).index(band)]; rsel = ri if not bands else ri[list(bands).index(band)]
+    lsel = li if not bands else li[list(bands).index(band)]; rsel = ri if not bands else ri[list(rbands).index(band)]
     o = _np_oracle(lsel, rsel, method, ws, dmin, dmax, lm, rm, grids, lcodes, rcodes)
     got = cv["cost_volume"].data
     if got.shape != o.shape:
@@ -557,6 +650,25 @@ def replay(cex):
         bad.append('a border pixel carries flags %s' % sorted(set(vm[~inner].tolist())))
     if (((vm & 2) != 0) != allnan)[inner].any():
         bad.append('bit 1 differs from "no computable cost"')
+    # documented cause of bits 0, 6, 2, 7 over the global interval
+    nodL_ = (lm == lcodes[1]); invL_ = (lm != lcodes[0]) & ~nodL_; invR_ = (rm != rcodes[0]) & ~(rm == rcodes[1])
+    dsl = list(range(dmin, dmax + 1))
+    for r in range(H):
+        for c in range(W):
+            if not inner[r, c]:
+                continue
+            inimg = [d for d in dsl if hh <= c + d < W - hh]
+            exp_bits = {1: bool(nodL_[r - hh:r + hh + 1, c - hh:c + hh + 1].any()), 64: bool(invL_[r, c]), 4: 0 < len(inimg) < len(dsl),
+                        128: bool(inimg) and all(invR_[r, c + d] for d in inimg)}
+            for bit, e in exp_bits.items():
+                if bool(vm[r, c] & bit) != e:
+                    bad.append('pixel (%d,%d): bit %d is %s, its documented cause %s (flags %d, interval [%d,%d], window %d, width %d)' % (
+                        r, c, bit.bit_length() - 1, 'set' if vm[r, c] & bit else 'clear', 'holds' if e else 'does not hold', vm[r, c], dmin, dmax, ws, W))
+                    break
+            if bad:
+                break
+        if bad:
+            break
     # winner
     with np.errstate(all='ignore'):
         for r in range(H):
